@@ -1,7 +1,7 @@
 #!/usr/bin/env python3
 """Prepares a round of seeded changes: per property a scratch worktree /tmp/<wdir>_Cxx of /repo and
 /tmp/<wdir>_Cxx_out/PROPERTY.txt (the property's text + one-line descriptions of the changes already taken),
-and the prompt file /tmp/<wdir>_prompt_Cxx.txt.  Usage: prep_round.py <wdir> <prompt template>"""
+and the prompt file /tmp/<wdir>_prompt_Cxx.txt.  Usage: prep_round.py <wdir> <prompt template>   (template: tools/mutation_prompt.txt)"""
 import json, os, re, subprocess, sys
 ROOT = os.path.dirname(os.path.dirname(os.path.abspath(__file__)))
 wdir, template = sys.argv[1], sys.argv[2]
